@@ -471,6 +471,62 @@ def factory_configs(fi: FuncInfo) -> List[Tuple[Dict[str, bool], List[Tuple[str,
     return out
 
 
+def factory_configs_evaluated(fi: FuncInfo):
+    """The factory body is run (own arithmetic, model objects for the constraint classes) for every presence / absence
+    pattern of its optional parameters; returns [(configuration, [stage class names])] or None if not evaluable."""
+    from itertools import product
+
+    from ..constfold import PySeq, Unfoldable
+    from ..frag import FragRaise, FragReturn, run_fragment
+    from ..gf2 import EvalObj
+
+    class Stage(EvalObj):
+        def __init__(self, cls_name, *a, **k):
+            self.cls_name = cls_name
+
+    class Comp(EvalObj):
+        def __init__(self, constraints):
+            self.constraints = PySeq(constraints)
+
+    def mk(name):
+        return lambda *a, **k: Stage(name, *a, **k)
+
+    ctors = {nm: mk(nm) for nm in STAGES}
+    ctors["CompositeConstraint"] = Comp
+    a = fi.node.args
+    params = [p.arg for p in a.args + a.kwonlyargs]
+    defaults = [None] * (len(a.args) - len(a.defaults)) + list(a.defaults) + list(a.kw_defaults)
+    none_tested = {c.left.id for c in ast.walk(fi.node) if isinstance(c, ast.Compare) and isinstance(c.left, ast.Name) and len(c.ops) == 1 and isinstance(c.ops[0], (ast.Is, ast.IsNot)) and isinstance(c.comparators[0], ast.Constant) and c.comparators[0].value is None}
+    optional = [p for p, d in zip(params, defaults) if (isinstance(d, ast.Constant) and d.value is None) or p in none_tested]
+    flags = [p for p, d in zip(params, defaults) if isinstance(d, ast.Constant) and isinstance(d.value, bool)]
+    out = []
+    for combo in product([True, False], repeat=len(optional)):
+        for fl in product([True, False], repeat=len(flags)):
+            names = {}
+            for p, d in zip(params, defaults):
+                names[p] = SAMPLE_LIMITS.get(p, 1.5)
+                if p == "spectral_mask":
+                    names[p] = [1.0, 1.0]
+            for p, present in zip(optional, combo):
+                if not present:
+                    names[p] = None
+            for p, v in zip(flags, fl):
+                names[p] = v
+            try:
+                run_fragment(fi.body, names, {}, ctors=ctors, max_steps=5000)
+                return None
+            except FragReturn as r:
+                res = r.value
+            except FragRaise:
+                continue  # an inadmissible combination of arguments
+            except (Unfoldable, TypeError) :
+                return None
+            if not isinstance(res, Comp) or not all(isinstance(x, Stage) for x in res.constraints):
+                return None
+            out.append((dict(zip(optional, combo)), [(x.cls_name, None) for x in res.constraints]))
+    return out
+
+
 def rule_factories(repo: Repo, rep: Report) -> int:
     n = 0
     for fname in ("create_ofdm_constraints", "create_mimo_constraints"):
@@ -480,7 +536,8 @@ def rule_factories(repo: Repo, rep: Report) -> int:
         rep.shape(ok, False, "COMPOSITE-ORDER", fi, f"{fname} returns {unparse(rets[-1].value) if rets else '?'}", "the appended list, in order", "the factory does not return CompositeConstraint(<the list it built>)")
         n += 1
         seen = set()
-        for atoms, stages in factory_configs(fi):
+        evaluated = factory_configs_evaluated(fi)
+        for atoms, stages in (evaluated if evaluated else factory_configs(fi)):
             names = [s for s, _ in stages]
             key = tuple(names)
             if key in seen or not names:
